@@ -199,7 +199,7 @@ theorem string_parsers_agree_on_class (cl : Str → Nat) (ts : List (Tok Seq Str
     exact (this ts hg hq p hp).1
   exact toks_agree parseSGR (ssSeq {}) (fun q => agreeClass q = true)
     (fun s q h => (consumers_agree_on_class s q h).1) ts {} hc
-    (parseToks_no_error parseSGR (fun s q h => intSgr_ok parseCfg s q h) ts {} hne)
+    (parseToks_no_error parseSGR (fun s q h => intSgr_ok parseCfg C18.cfgs_nums_ok.1 s q h) ts {} hne)
 
 -- non-vacuity: a string with a complete legacy form after another parameter, an unknown code and an ignored form (evaluated)
 example : Good (fun _ => 1) [.sgr [[1], [38], [5], [200]], .text [0x61], .sgr [[6], [38, 2, 1, 2]], .text [0x62]] ∧
